@@ -250,6 +250,18 @@ def fr(df):
     return df
 
 
+def same_results(a, b, tol=2e-5):
+    """Equality of two reported results up to the rounding of `rnd`: a value that sits on a rounding boundary (3.265625 at five places) comes out
+    as either neighbour depending on the last bit of the float, which is not a difference of the analysis."""
+    if isinstance(a, float) and isinstance(b, float):
+        return abs(a - b) <= tol * (1 + abs(a))
+    if isinstance(a, dict) and isinstance(b, dict):
+        return a.keys() == b.keys() and all(same_results(a[k], b[k], tol) for k in a)
+    if isinstance(a, (list, tuple)) and isinstance(b, (list, tuple)):
+        return len(a) == len(b) and all(same_results(x, y, tol) for x, y in zip(a, b))
+    return a == b
+
+
 def rnd(v):
     if isinstance(v, (set, frozenset)):
         return sorted(map(str, v))
@@ -470,12 +482,12 @@ def check_case(case):
             results.append((err, res))
         if undefined:
             results = results[:1]
-        if len(results) == 2 and results[0] != results[1] and name not in ("optimize", "slim_optimize"):
+        if len(results) == 2 and not same_results(results[0], results[1]) and name not in ("optimize", "slim_optimize"):
             # values reported for a model that has no steady state within its bounds are whatever the solver last held: not defined quantities
             m.slim_optimize()
             if m.solver.status != "optimal":
                 results = results[:1]
-        if len(results) == 2 and results[0] != results[1] and name in ("find_essential_genes", "find_essential_reactions") \
+        if len(results) == 2 and not same_results(results[0], results[1]) and name in ("find_essential_genes", "find_essential_reactions") \
                 and results[0][0] is None and results[1][0] is None and results[0][1] is not None and results[1][1] is not None:
             # membership of a knock-out whose growth equals the threshold (1 % of the optimum) up to rounding is not defined
             from cobra.flux_analysis import single_gene_deletion, single_reaction_deletion
@@ -485,7 +497,7 @@ def check_case(case):
             differing = set(results[0][1]) ^ set(results[1][1])
             if all(k in growth and abs(growth[k] - thr) <= 1e-6 * (1 + abs(thr)) for k in differing):
                 results = results[:1]
-        if len(results) == 2 and results[0] != results[1]:
+        if len(results) == 2 and not same_results(results[0], results[1]):
             fails.append(f"{name}({args}): two calls on the same model gave different results: {json.dumps(results[0], default=str)[:200]} vs "
                          f"{json.dumps(results[1], default=str)[:200]}")
         for _ in range(depth):
